@@ -59,6 +59,9 @@ type mockThings struct {
 	outcomeCtx func(ctx *restli.RequestContext, method string) error
 	item       *vt.Item
 	batch      *things.BatchEntities
+	elements   *things.Elements
+	createdID  string
+	pong       string
 	ctx        *restli.RequestContext
 }
 
@@ -85,7 +88,11 @@ func (m *mockThings) Create(ctx *restli.RequestContext, entity *vt.Item) (*thing
 	if err != nil {
 		return nil, err
 	}
-	return &things.CreatedEntity{Id: "new"}, nil
+	id := "new"
+	if m.createdID != "" {
+		id = m.createdID
+	}
+	return &things.CreatedEntity{Id: id}, nil
 }
 func (m *mockThings) Update(ctx *restli.RequestContext, thingId string, entity *vt.Item) error {
 	m.ctx = ctx
@@ -134,7 +141,10 @@ func (m *mockThings) BatchDelete(ctx *restli.RequestContext, keys []string) (*th
 }
 func (m *mockThings) FindBySearch(ctx *restli.RequestContext, p *things.FindBySearchParams) (*things.Elements, error) {
 	m.ctx = ctx
-	err := m.rec(call{method: "finder:search", q: p.Q})
+	err := m.rec(call{method: "finder:search", q: p.Kw})
+	if m.elements != nil {
+		return m.elements, err
+	}
 	return &things.Elements{}, err
 }
 func (m *mockThings) FindByWithMeta(ctx *restli.RequestContext, p *things.FindByWithMetaParams) (*things.FindByWithMetaElements, error) {
@@ -145,6 +155,9 @@ func (m *mockThings) FindByWithMeta(ctx *restli.RequestContext, p *things.FindBy
 func (m *mockThings) PingAction(ctx *restli.RequestContext, p *things.PingActionParams) (string, error) {
 	m.ctx = ctx
 	err := m.rec(call{method: "action:ping", msg: p.Msg})
+	if m.pong != "" {
+		return m.pong, err
+	}
 	return "pong", err
 }
 func (m *mockThings) TouchAction(ctx *restli.RequestContext, thingId string) error {
